@@ -45,12 +45,13 @@ Definition len_expr_ok (a : farg) (lenexpr : bytes) : bool :=
   | ALit l => beq_bytes lenexpr (b "strlen(""" ++ l ++ b """)")
   end.
 
-(* the single SHA256_Buf(data, len, out) call of a function must be the expected one; the accepted
-   length expressions denote the whole object: strlen(creq) for the string creq, and
-   `body ? bodylen : 0` for the (body, bodylen) pair (the body, or nothing when body is NULL) *)
-Definition sha_call_ok (calls : list (bytes * bytes * bytes)) (data lenexpr out : bytes) : bool :=
+(* the single SHA256_Buf(data, len, out) call of a function must hash the expected object; the
+   accepted length expressions denote the whole object: strlen(creq) for the string creq, and
+   `body ? bodylen : 0` for the (body, bodylen) pair (the body, or nothing when body is NULL).
+   (The name of the output buffer, which only the hand-modelled hexify call reads, is not compared.) *)
+Definition sha_call_ok (calls : list (bytes * bytes * bytes)) (data lenexpr : bytes) : bool :=
   match calls with
-  | [(d, l, o)] => beq_bytes d data && beq_bytes l lenexpr && beq_bytes o out
+  | [(d, l, _)] => beq_bytes d data && beq_bytes l lenexpr
   | _ => false
   end.
 
@@ -84,7 +85,7 @@ Section Hashes.
       | Some e1 =>
         match run_hmacs e1 [h1; h2; h3; h4] with
         | Some e2 =>
-          match (if sha_call_ok sha_calls_aws_sign (b "creq") (b "strlen(creq)") (b "h_creq")
+          match (if sha_call_ok sha_calls_aws_sign (b "creq") (b "strlen(creq)")
                  then hexify_str (sha256 creq) else None) with
           | Some hh =>
             match run_asprintf ((b "hhex_creq", hh) :: e2) f_sts with
@@ -152,7 +153,7 @@ Section Hashes.
              (inputs : env) (body : option bytes) (t : Z) : option (bytes * bytes * bytes) :=
     match timestamps ncalls terr tfns tfmts t, fmts with
     | Some te, [f_creq; f_auth] =>
-      match (if sha_call_ok shacalls (b "body") (b "body?bodylen:0") (b "hbuf")
+      match (if sha_call_ok shacalls (b "body") (b "body?bodylen:0")
              then hexify_str (sha256 (match body with Some x => x | None => [] end)) else None) with
       | Some ch =>
         let e0 := (b "content_sha256", ch) :: te ++ inputs in
